@@ -79,6 +79,53 @@ func (db *Database) AddControllerOutput(controllerName string, out controller.Ou
 	return nil
 }
 
+// DeleteController removes all the outputs and inputs registered for the controller.
+//
+// It is used to roll back a controller registration which failed half-way.
+func (db *Database) DeleteController(controllerName string) {
+	db.mu.Lock()
+	defer db.mu.Unlock()
+
+	for resourceType, exclusiveController := range db.exclusiveOutputs {
+		if exclusiveController == controllerName {
+			delete(db.exclusiveOutputs, resourceType)
+		}
+	}
+
+	for resourceType, sharedControllers := range db.sharedOutputs {
+		if idx, found := slices.BinarySearch(sharedControllers, controllerName); found {
+			sharedControllers = slices.Delete(sharedControllers, idx, idx+1)
+
+			if len(sharedControllers) == 0 {
+				delete(db.sharedOutputs, resourceType)
+			} else {
+				db.sharedOutputs[resourceType] = sharedControllers
+			}
+		}
+	}
+
+	for _, dep := range db.controllerInputs[controllerName] {
+		key := namespaceType{
+			Namespace: dep.Namespace,
+			Type:      dep.Type,
+		}
+
+		if id, ok := dep.ID.Get(); !ok {
+			db.inputLookup[key] = slices.DeleteFunc(db.inputLookup[key], func(s string) bool {
+				return s == controllerName
+			})
+		} else {
+			keyID := namespaceTypeID{namespaceType: key, ID: id}
+
+			db.inputLookupID[keyID] = slices.DeleteFunc(db.inputLookupID[keyID], func(s string) bool {
+				return s == controllerName
+			})
+		}
+	}
+
+	delete(db.controllerInputs, controllerName)
+}
+
 // GetControllerOutputs returns resource managed by controller.
 //
 // This method is not optimized for performance and should be used only for debugging.
